@@ -20,7 +20,7 @@ use futures_util::lock::{Mutex as AsyncMutex, MutexGuard};
 use futures_util::stream::{FuturesUnordered, Stream, StreamExt, once};
 use futures_util::{
     Future, FutureExt,
-    future::{BoxFuture, Shared},
+    future::{BoxFuture, Either, Shared, select},
 };
 use parking_lot::Mutex;
 #[cfg(feature = "serde")]
@@ -288,6 +288,13 @@ impl<P: ConnectionProvider> PoolState<P> {
         // number of servers) before returning an error — well past the point where clients have
         // given up and retransmitted the query.
         let deadline = Instant::now() + self.cx.options.timeout;
+        // The deadline also has to interrupt a round that is in flight: every per-server attempt
+        // carries its own full timeout, so a round started shortly before the deadline would
+        // otherwise run up to one more timeout past it.
+        let mut deadline_timer =
+            <<P as ConnectionProvider>::RuntimeProvider as RuntimeProvider>::Timer::delay_for(
+                self.cx.options.timeout,
+            );
 
         let mut servers = VecDeque::from(servers);
         let mut backoff = Duration::from_millis(20);
@@ -355,7 +362,12 @@ impl<P: ConnectionProvider> PoolState<P> {
             // error) — used to avoid double-penalizing them.
             let mut completed = SmallVec::<[IpAddr; 2]>::new();
 
-            while let Some((server, result)) = requests.next().await {
+            loop {
+                let (server, result) = match select(requests.next(), &mut deadline_timer).await {
+                    Either::Left((Some(next), _)) => next,
+                    Either::Left((None, _)) => break,
+                    Either::Right(_) => return Err(NetError::Timeout),
+                };
                 completed.push(server.ip());
                 let e = match result {
                     Ok(response) if response.truncation => {
